@@ -1,4 +1,5 @@
 """C11 Cooperator: only runnable tasks advance, round-robin, each whenDone exactly once."""
+import sys
 from typing import List
 
 from twisted.internet.defer import Deferred
@@ -6,7 +7,6 @@ from twisted.internet.task import (Cooperator, NotPaused, SchedulerStopped, Task
                                    TaskStopped)
 from twisted.python.failure import Failure
 
-from vlib import api
 from vlib.api import H, cover
 
 PROPERTY = "C11"
@@ -49,7 +49,8 @@ EXPLANATION = ("symbolic iterator scripts and operation histories on the real Co
 
 
 def _fail(msg):
-    return False if api.MODE == "sym" else (False, msg)
+    # plain False under the solver (post: _ needs a falsy value), a diagnostic tuple in replay / vector validation
+    return False if "crosshair" in sys.modules else (False, msg)
 
 
 class _Boom(Exception):
